@@ -10,7 +10,7 @@
     Value ranges: u8/u16/u32 v := 0 <= v < 2^8/2^16/2^32, i32 v := -2^31 <= v < 2^31;
     *_wf x := every field of x is in the range of its Go type; bytes_ok b := every byte is u8. *)
 From Coq Require Import ZArith List Bool.
-From CanVerif Require Import Netlink.Layout Netlink.LayoutSpec Netlink.Attr Netlink.Proofs.
+From CanVerif Require Import Netlink.Layout Netlink.LayoutSpec Netlink.Attr Netlink.Proofs Netlink.Program Netlink.ProgramProofs.
 Import ListNotations.
 Open Scope Z_scope.
 
@@ -212,3 +212,48 @@ Proof.
   - vm_compute. reflexivity.
   - vm_compute. reflexivity.
 Qed.
+
+(** ACTION-SEQUENCE TIE for the attribute walkers (Netlink/Program.v). harness/netwire reads Info.decode,
+    linkInfoMsg.decode, Device.unmarshalBinary, Info.encode and linkInfoMsg.encode from the source text; the
+    check compares them with the constants
+      [info_walk]     = cases BITTIMING, BITTIMING_CONST, CLOCK, CTRLMODE, BERR_COUNTER -> err = <field>.unmarshalBinary
+      [linkinfo_walk] = INFO_KIND -> kind check, INFO_DATA -> Nested(info.decode), INFO_XSTATS -> stats
+      [device_walk]   = IFNAME -> ifname, LINKINFO -> Nested(li.decode); Type = linkType
+      [info_encode_prog] = Bytes(BITTIMING), Bytes(CTRLMODE);  [linkinfo_encode_prog] = String(KIND), Nested(DATA)
+    (default: skip; `if err != nil { return err }` inside the loop). [run_info] / [run_linkinfo] / [run_device]
+    execute a walk: [step exec w st rawtype d] selects the first case equal to the masked type. The executed
+    programs ARE the hand model, for all attribute buffers *)
+Theorem C20_decode_program_is_model : forall i0 li0 dv b,
+  run_info info_walk i0 b = decode_info i0 b /\
+  run_linkinfo info_walk linkinfo_walk li0 b = decode_linkinfo_from li0 b /\
+  run_device info_walk linkinfo_walk device_walk dv b = device_unmarshal dv b.
+Proof.
+  exact (fun i0 li0 dv b => conj (info_program_is_model i0 b)
+           (conj (linkinfo_program_is_model li0 b) (device_program_is_model dv b))).
+Qed.
+Print Assumptions C20_decode_program_is_model.
+
+Theorem C20_encode_program_is_model : forall i li,
+  run_encode_info info_encode_prog i = encode_info i /\
+  run_encode_linkinfo info_encode_prog linkinfo_encode_prog li = encode_linkinfo li.
+Proof. exact (fun i li => conj (encode_info_program_is_model i) (encode_linkinfo_program_is_model li)). Qed.
+Print Assumptions C20_encode_program_is_model.
+
+(** an error of an attribute's action ends the walk with an error (never overwritten by a later
+    attribute); attribute types without a case are skipped *)
+Theorem C20_walk_error_ends_unknown_skipped :
+  (forall (S : Type) (exec : act -> S -> list Z -> outcome S) w fuel b st len t d,
+     length b <> 0%nat -> attr_unmarshal b = Ok (len, t, d) -> step exec w st t d = Error ->
+     attrs_iter (Datatypes.S fuel) (step exec w) b st = Error) /\
+  (forall (S : Type) (exec : act -> S -> list Z -> outcome S) w st t d,
+     select w (Z.land t NLA_TYPE_MASK) = None -> step exec w st t d = Ok st).
+Proof. exact (conj (@walk_error_ends) (@walk_unknown_skipped)). Qed.
+Print Assumptions C20_walk_error_ends_unknown_skipped.
+
+(** non-vacuity: a 3-byte CLOCK attribute (error) followed by a well-formed CTRLMODE attribute: the
+    walk ends with the error; an unknown type 7 before a CLOCK attribute is skipped *)
+Example C20_program_nonvacuous :
+  run_info info_walk info_zero ([7; 0; 3; 0; 1; 2; 3; 0] ++ [12; 0; 5; 0; 1; 0; 0; 0; 1; 0; 0; 0]) = Error /\
+  run_info info_walk info_zero ([5; 0; 7; 0; 9; 0; 0; 0] ++ [8; 0; 3; 0; 64; 0; 0; 0]) =
+    Ok (set_clock info_zero (Build_clock 64)).
+Proof. vm_compute. split; reflexivity. Qed.
